@@ -33,9 +33,9 @@ RULE = (
     "routed network, settings start_step 0-12, start_variance 0-4, frequency 1-8, variance < frequency, max_executions "
     "0-4 or default, 1-3 possible start nodes, probability tables with zeros and ones in shuffled key order. Family 'tap': "
     "shipped UC7 scenarios with the tap-001 / tap-003 agent_settings mutated (start_step, frequency, variance, repeat flags, "
-    "starting_nodes, per-stage probabilities in {0, 0.5, 1}, propagate/payload options, number of ACLs / account changes). "
+    "starting_nodes (all four repeat-flag pairs), per-stage probabilities in {0, 0.3, 0.5, 0.7, 1}, propagate/payload options, number of ACLs / account changes). "
     "Blue ops: shut down / start / isolate a start node, add / remove a deny-all ACL rule on the path, uninstall the target "
-    "application, change a router password. Non-trivial = some scripted agent made >=2 non-idle actions in one episode, or a "
+    "application (also as a reacting defender that removes what the attacker just installed), change a router password. Non-trivial = some scripted agent made >=2 non-idle actions in one episode, or a "
     "threat actor advanced >=2 stages, in a case that contains at least one effective blue interference op and >=2 "
     "episodes; distinct by hash of the case."
 )
@@ -795,12 +795,14 @@ def tap_case(draw, persona: str, max_steps: int = 60, slow_nets: bool = False, e
     probs = {name: draw(st.sampled_from([1, 1, 1, 0.5, 0.3, 0.7])) for name in P["prob_stages"]}
     if draw(st.integers(0, 2)) == 0:
         probs[draw(st.sampled_from(sorted(P["prob_stages"])))] = 0
+    # all four flag combinations on purpose (st.booleans() twice gave (False, False) half of the time)
+    flags = draw(st.sampled_from([[False, False], [False, True], [False, True], [True, False], [True, True]]))
     settings: Dict[str, Any] = {
         "start_step": start,
         "frequency": f,
         "variance": v,
-        "repeat_kill_chain": draw(st.booleans()),
-        "repeat_kill_chain_stages": draw(st.booleans()),
+        "repeat_kill_chain": flags[0],
+        "repeat_kill_chain_stages": flags[1],
         "starting_nodes": draw(st.one_of(st.just([]), st.lists(st.sampled_from(START_NODES), min_size=1, max_size=3, unique=True))),
         "default_starting_node": draw(st.sampled_from(START_NODES)),
         "probs": probs,
